@@ -1,11 +1,11 @@
 (* Sandbox/Properties.v — property theorems of C26 only; proofs live in Proofs.v. *)
-From Sandbox Require Import Model Proofs.
+From Sandbox Require Import Model Proofs Tree.
 Open Scope N_scope.
 
 (* The property as stated: for every file system, sandbox root and path spelling, the place the
    kernel reaches through SandboxJoin's result lies at or below the real sandbox root.
    (descends q r: same kind of path, r's segments are a prefix of q's, the rest are plain names.) *)
-Definition C26_statement (fixd : bool) : Prop :=
+Definition C26_statement (fixd : version) : Prop :=
   forall (fs : node) (root p : str) (rroot : path),
     is_abs root = true -> evalsym_t fs (clean_str root) = Some rroot ->
     match touch_t fs (sandbox_join_p (lstat_t fs) (evalsym_t fs) fixd root p) with
@@ -17,33 +17,70 @@ Definition C26_statement (fixd : bool) : Prop :=
    separators, empty): the string SandboxJoin chooses is the cleaned root followed by plain names
    (no "..", no ".", no empty segment).  This is the whole result when the root does not exist. *)
 Theorem C26_lexical :
-  forall (fixd : bool) (root p : str),
+  forall (fixd : version) (root p : str),
     descends (sandbox_join_p no_lstat no_evalsym fixd root p) (clean_str root).
 Proof. exact lexical. Qed.
 
 (* Resolved confinement for any arrangement of links, over an abstract file system given by
-   lstat / evalsym / touch and the five laws relating them (assumed; validated on every generated
-   layout against the tree model and the real kernel by the check). *)
+   lstat / evalsym / touch and the five laws relating them (kept: it applies to any file system that
+   obeys the laws; the tree model below is proved to obey them). *)
 Theorem C26_resolved :
-  forall (lstat : path -> bool) (evalsym touch : path -> option path),
-    lstat (true, []) = true ->
+  forall (lstat : path -> lres) (evalsym touch : path -> option path),
+    lstat (true, []) = LYes ->
     (forall p r, evalsym p = Some r -> normal r /\ fst r = true) ->
     (forall p r, evalsym p = Some r -> evalsym r = Some r) ->
     (forall p r, evalsym p = Some r -> touch p = Some r) ->
-    (forall p r x rest, evalsym p = Some r -> lstat (fst p, snd p ++ [x]) = false ->
+    (forall p r x rest, evalsym p = Some r -> plain x -> lstat (fst p, snd p ++ [x]) = LNo ->
         touch (fst r, snd r ++ x :: rest) = None \/
         touch (fst r, snd r ++ x :: rest) = Some (fst r, snd r ++ [x])) ->
     forall (root p : str) (rroot : path),
       is_abs root = true -> evalsym (clean_str root) = Some rroot ->
-      match touch (sandbox_join_p lstat evalsym true root p) with
+      match touch (sandbox_join_p lstat evalsym V2 root p) with
       | None => True
       | Some q => descends q rroot
       end.
 Proof. exact resolved. Qed.
 
+(* The same for the tree file system, with no law left as a hypothesis: for every tree of directories,
+   files and links (any targets: absolute, relative, with "..", dangling, cyclic), every absolute root
+   that resolves and every path spelling, the place the kernel walk reaches through SandboxJoin's
+   result lies at or below the real root.  Lstat, EvalSymlinks and the kernel walk are the fuelled
+   kres with the same budget FUEL = 400 steps; running out of budget is Lstat's "other error"
+   (clamped since fix f5147975), EvalSymlinks' failure and a failing call. *)
+Theorem C26_resolved_tree : C26_statement V2.
+Proof. exact resolved_tree. Qed.
+
+(* The five laws hold for every tree (the hypotheses of C26_resolved, instantiated). *)
+Theorem C26_tree_laws :
+  forall fs : node,
+    lstat_t fs (true, []) = LYes /\
+    (forall p r, evalsym_t fs p = Some r -> normal r /\ fst r = true) /\
+    (forall p r, evalsym_t fs p = Some r -> evalsym_t fs r = Some r) /\
+    (forall p r, evalsym_t fs p = Some r -> touch_t fs p = Some r) /\
+    (forall p r x rest, evalsym_t fs p = Some r -> plain x -> lstat_t fs (fst p, snd p ++ [x]) = LNo ->
+        touch_t fs (fst r, snd r ++ x :: rest) = None \/
+        touch_t fs (fst r, snd r ++ x :: rest) = Some (fst r, snd r ++ [x])).
+Proof.
+  intros fs. exact (conj (tree_root_exists fs) (conj (tree_real_normal fs) (conj (tree_real_fixed fs)
+                   (conj (tree_touch_real fs) (tree_touch_absent fs))))).
+Qed.
+
+(* The code between the two repairs (V1): when Lstat gives up on a long chain of links although
+   EvalSymlinks resolves the parent, the skipped entries can hold a link that leaves the sandbox. *)
+Theorem C26_v1_refuted : ~ C26_statement V1.
+Proof.
+  intros H. pose (fs := chain_fs 396).
+  assert (He : evalsym_t fs (clean_str wit_root) = Some (true, [[115;98]])) by (vm_compute; reflexivity).
+  assert (Ht : touch_t fs (sandbox_join_p (lstat_t fs) (evalsym_t fs) V1 wit_root chain_p) = Some (true, [[111;117;116]; [115]]))
+    by (vm_compute; reflexivity).
+  clearbody fs.
+  pose proof (H fs wit_root chain_p (true, [[115;98]]) eq_refl He) as H1. rewrite Ht in H1.
+  destruct H1 as (_ & rest & Hs & _). cbn [snd app] in Hs. discriminate.
+Qed.
+
 (* The code before the repair: a dangling link inside the sandbox pointing outside makes a
    creating call land outside (replayed on the real code by the check). *)
-Theorem C26_old_refuted : ~ C26_statement false.
+Theorem C26_old_refuted : ~ C26_statement V0.
 Proof.
   intros H. specialize (H wit_fs wit_root wit_p (true, [[115;98]]) eq_refl eq_refl).
   destruct old_refuted as (_ & Ht & Hb). cbv zeta in Ht. rewrite Ht in H.
@@ -55,6 +92,20 @@ Example C26_nonvacuous :
   sandbox_join_lex [47;115;98] [97;47;47;46;46;47;46;46;47;115;98;45;101;47;46;47;120] = [47;115;98] /\
   sandbox_join_lex [47;115;98] [47;115;98;47;97;47;46;46;47;98] = [47;115;98;47;98] /\
   (* the tree instance used in the refutation satisfies the hypotheses' shape and the repaired code confines it *)
-  lstat_t wit_fs (true, []) = true /\
-  touch_t wit_fs (sandbox_join_p (lstat_t wit_fs) (evalsym_t wit_fs) true wit_root wit_p) = Some (true, [[115;98]]).
+  lstat_t wit_fs (true, []) = LYes /\
+  touch_t wit_fs (sandbox_join_p (lstat_t wit_fs) (evalsym_t wit_fs) V2 wit_root wit_p) = Some (true, [[115;98]]).
+Proof. vm_compute. auto. Qed.
+
+(* C26_resolved_tree is not vacuous: a tree with a link that leaves the sandbox, an absolute root that
+   resolves; a path through the link is clamped, a path to a new file below a directory link is kept *)
+Definition ex_fs : node :=
+  Dir [ ([115;98], Dir [ ([97], Dir []) ; ([108;105], Link [97]) ; ([108;111], Link [47;111;117;116]) ]) ;
+        ([111;117;116], Dir [([115], File)]) ].
+Example C26_tree_nonvacuous :
+  evalsym_t ex_fs (clean_str wit_root) = Some (true, [[115;98]]) /\
+  touch_t ex_fs (sandbox_join_p (lstat_t ex_fs) (evalsym_t ex_fs) V2 wit_root [108;111;47;115]) = Some (true, [[115;98]]) /\
+  touch_t ex_fs (sandbox_join_p (lstat_t ex_fs) (evalsym_t ex_fs) V2 wit_root [108;105;47;110;101;119]) = Some (true, [[115;98]; [97]; [110;101;119]]) /\
+  (* the hypotheses of the fifth law are met on this tree: /sb/li resolves, "new" is plain and absent *)
+  evalsym_t ex_fs (true, [[115;98]; [108;105]]) = Some (true, [[115;98]; [97]]) /\
+  lstat_t ex_fs (true, [[115;98]; [108;105]] ++ [[110;101;119]]) = LNo.
 Proof. vm_compute. auto. Qed.
